@@ -180,3 +180,13 @@ def c19_5(ctx: Ctx):
     if ok:
         ctx.check(e[0][0].index < d[0].index, fi, d[0].node, "symbols are detached only after the use check passed", "symbols leave the module before remaining uses were checked")
         ctx.check(len(d[0].loops) == 1 and src(d[0].loops[0].iter) == "symbols", fi, d[0].node, "every requested symbol is detached", "loop changed")
+        ctx.check(a[0][0].index < d[0].index, fi, a[0][1], "the aux-data tables are cleaned while the symbols are still part of the module",
+                  "`_delete_auxdata_entries` runs after `symbol.module = None`: gtirb decodes an aux-data table on first access and resolves the UUIDs in it through the IR at that moment, so on a "
+                  "loaded IR whose symbol tables were not touched before, the detached symbols decode as bare UUIDs, none of the `in symbols` / `pop(sym)` tests matches and every entry about a "
+                  "deleted symbol (elfSymbolInfo, versions, forwarding, functionNames, PE lists) survives into the saved file", key="delete_symbols::tables-before-detach")
+        par = fi.node.args.args[1].arg if len(fi.node.args.args) > 1 else "symbols"
+        whole = all(len(c.args) >= 2 and src(c.args[1]) == par for _, c in a + e)
+        ctx.check(whole, fi, e[0][1], "both clean-up phases see the whole request",
+                  "a phase is called with a subset of the requested symbols: `_delete_symbolic_expressions` decides 'remaining use' per expression against the mapping it is given, so an expression "
+                  "naming a forced and a non-forced symbol (`a - b` in a jump table) is dropped by the forced pass and the non-forced symbol is then deleted without SymbolUsesRemainingError",
+                  key="delete_symbols::whole-request")
